@@ -97,6 +97,21 @@ theorem deleteEcu_needs_nodup_references :
     ¬ ((convert { deleteEcu := some ["A"] } Conv.dupTxEx).map core = (expected { deleteEcu := some ["A"] } Conv.dupTxEx).map core) :=
   Conv.deleteEcu_alone_false
 
+
+/-! ## any combination of the options that neither select nor rename -/
+
+/-- the options of this theorem: everything except the selections (`ecus`, `frames`), the renames and `deleteObsoleteEcus`
+(whose combination with a signal-removing option is the known finding) -/
+def plainOptions (o : Opts) : Prop :=
+  o.ecus = none ∧ o.frames = none ∧ o.renameEcu = none ∧ o.renameFrame = none ∧ o.renameSignal = none ∧ o.deleteObsoleteEcus = false
+
+/-- every set of such options at once (in particular every pair): the pipeline yields exactly the documented effects,
+applied in the documented order, on matrices whose names identify their objects and whose reference lists have no duplicates -/
+theorem plain_options_combined (o : Opts) (m : KMat) (ho : plainOptions o) (h : uniqueNames m)
+    (hr : ∀ f ∈ m.frames, f.tx.Nodup ∧ ∀ s ∈ f.sigs, s.receivers.Nodup) :
+    (convert o m).map core = (expected o m).map core := by
+  exact Conv.plain_options_combined_main o m ho h hr
+
 /-! ## thresholds and lengths -/
 
 /-- `skipLongDlc = t`: a frame stays iff its length is at most `t` (the boundary length stays) -/
